@@ -6,6 +6,7 @@ pub mod c03;
 pub mod c04;
 pub mod c06;
 pub mod c07;
+pub mod c08;
 
 pub fn dispatch(cfg: &Cfg) -> Option<Outcome> {
     Some(match cfg.prop.as_str() {
@@ -15,6 +16,7 @@ pub fn dispatch(cfg: &Cfg) -> Option<Outcome> {
         "C04" => c04::run(cfg),
         "C06" => c06::run(cfg),
         "C07" => c07::run(cfg),
+        "C08" => c08::run(cfg),
         _ => return None,
     })
 }
